@@ -95,6 +95,8 @@ fn key_main<C: key::KeyColl>(a: &Args, tr: &mut out::Trace) {
             let states: Vec<out::Snap> = text.lines().filter(|l| !l.trim().is_empty()).map(|l| out::parse_snap(l).expect("start state")).collect();
             if a.num("faults", 0) != 0 {
                 key::run_ind_faults::<C>(tr, &states);
+            } else if a.num("queries", 0) != 0 {
+                key::run_ind_queries::<C>(tr, &states);
             } else {
                 key::run_ind::<C>(tr, &states, a.num("export", 1) != 0);
             }
